@@ -105,6 +105,44 @@ fn check_c12_history(ctx: &mut Ctx, case: &ProjectCase) {
     ctx.scratch.discard(&root);
 }
 
+/// the other modes regenerate temp files too: after a build, a verify run and an only-if-needed run
+/// over the same tree must leave every generated file with its single line ending
+fn check_c12_other_modes(ctx: &mut Ctx, case: &ProjectCase) {
+    let root = ctx.scratch.fresh();
+    let first = crate::props::common::run_project_at(ctx, case, &root, false);
+    if !first.outcome.verdict.is_ok() || first.expect.out_of_domain.is_some() {
+        ctx.scratch.discard(&root);
+        return;
+    }
+    for mode in [Mode::Verify, Mode::InMemoryBuild] {
+        let mut c2 = case.clone();
+        c2.mode = mode.clone();
+        let o = crate::run::run_inproc(&c2.cfg(&root), c2.spec.clone(), Some(&root), false);
+        ctx.evals += 1;
+        ctx.count("verify_and_needed_runs_over_a_built_tree", 1);
+        if matches!(o.verdict, crate::run::Verdict::Watchdog) {
+            continue;
+        }
+        let now = crate::util::snap(&root);
+        for (src, le) in &first.expect.built.le {
+            let mut gens: Vec<String> = vec![model::output_of(src).unwrap()];
+            gens.extend(first.expect.built.temp_owner.iter().filter(|(_, o)| *o == src).map(|(t, _)| t.clone()));
+            for g in gens {
+                if let Some(e) = now.files.get(&g) {
+                    if let Some(i) = scan_le(&e.bytes, le) {
+                        ctx.violation(
+                            format!("C12:{}", if *le == "\n" { "cr-in-lf-file" } else { "bare-lf-or-cr-in-crlf-file" }),
+                            format!("{g} (source {src}, first-line ending {le:?}) after a build followed by a {} run ({}): byte {i} breaks the single line ending; content {}", crate::run::mode_name(&mode), o.verdict.short(), show(&e.bytes)),
+                            case.to_json(),
+                        );
+                    }
+                }
+            }
+        }
+    }
+    ctx.scratch.discard(&root);
+}
+
 fn check_c12(ctx: &mut Ctx, case: &ProjectCase) {
     let res = run_project(ctx, case);
     if res.expect.out_of_domain.is_some() || !res.outcome.verdict.is_ok() {
@@ -166,6 +204,9 @@ fn run_c12(ctx: &mut Ctx) {
         if i % 5 == 0 {
             check_c12_history(ctx, &case);
         }
+        if i % 5 == 2 {
+            check_c12_other_modes(ctx, &case);
+        }
         if i == 0 {
             ctx.sample(|| json!({"source": String::from_utf8_lossy(&case.files["le.txt.txtpp"])}));
         }
@@ -174,6 +215,7 @@ fn run_c12(ctx: &mut Ctx) {
 
 fn replay_c12(ctx: &mut Ctx, v: &Value) {
     check_c12(ctx, &ProjectCase::from_json(v));
+    check_c12_other_modes(ctx, &ProjectCase::from_json(v));
 }
 
 // ------------------------------------------------------------------------------------- C13
@@ -260,6 +302,22 @@ fn check_c13(ctx: &mut Ctx, files: &Files, seed_note: &str) {
         c.trailing = trailing;
         let res = run_project_at(ctx, &c, &root, false);
         outs.push((res.after.bytes(), res.outcome.verdict.clone(), res.expect));
+    }
+    // an only-if-needed build into a directory without outputs must give what a build gives
+    if outs[0].1.is_ok() && outs[1].1.is_ok() {
+        for trailing in [true, false] {
+            ctx.scratch.reuse(&root);
+            let mut c = ProjectCase::simple(files.clone());
+            c.trailing = trailing;
+            c.mode = Mode::InMemoryBuild;
+            let res = run_project_at(ctx, &c, &root, false);
+            let now = res.after.bytes();
+            let want = &outs[if trailing { 0 } else { 1 }].0;
+            if !res.outcome.verdict.is_ok() || &now != want {
+                let bad: Vec<&String> = want.keys().filter(|k| now.get(*k) != want.get(*k)).collect();
+                ctx.violation("C13:needed-on-a-fresh-tree", format!("needed-build with trailing={trailing} into a directory without outputs: verdict {}, files differing from a build with the same setting: {bad:?}", res.outcome.verdict.short()), json!({"files": crate::util::files_json(files)}));
+            }
+        }
     }
     // history: a tree built with one setting, then a needed-build with the other setting must
     // give exactly what a fresh build with that other setting gives
@@ -393,24 +451,7 @@ fn check_c13_requested(ctx: &mut Ctx, files: &Files, inputs: &[String], watched:
 
 fn run_c13(ctx: &mut Ctx) {
     let mut r = StdRng::seed_from_u64(ctx.shard_seed());
-    let n = ctx.tier.pick(1500, 12_000);
-    for i in 0..n {
-        if !ctx.time_left() || ctx.violations.len() > 20 {
-            break;
-        }
-        let mut files = crate::gen::static_files();
-        if i % 3 != 2 {
-            files.insert("e.txt.txtpp".into(), eof_source(&mut r).into_bytes());
-        } else {
-            let o = GenOpts { max_sources: 1, error_pct: 0, ..GenOpts::default() };
-            let src = crate::gen::gen_source(&mut r, &o, "", &[], false, 0);
-            files.insert("e.txt.txtpp".into(), src.into_bytes());
-        }
-        check_c13(ctx, &files, &format!("case {i}"));
-        if i == 0 {
-            ctx.sample(|| json!({"source": String::from_utf8_lossy(&files["e.txt.txtpp"])}));
-        }
-    }
+    // (the directed loops run first: the general loop below uses whatever budget is left)
     // a source that is built only as a dependency of the requested file must honour the option too
     let ndep = ctx.tier.pick(40, 1500);
     for i in 0..ndep {
@@ -444,6 +485,24 @@ fn run_c13(ctx: &mut Ctx) {
         files.insert("e.txt.txtpp".into(), format!("-TXTPP#after d.txt{le}{mid}{body}").into_bytes());
         ctx.count("two_pass_sources", 1);
         check_c13(ctx, &files, &format!("two-pass case {i}"));
+    }
+    let n = ctx.tier.pick(1200, 12_000);
+    for i in 0..n {
+        if !ctx.time_left() || ctx.violations.len() > 20 {
+            break;
+        }
+        let mut files = crate::gen::static_files();
+        if i % 3 != 2 {
+            files.insert("e.txt.txtpp".into(), eof_source(&mut r).into_bytes());
+        } else {
+            let o = GenOpts { max_sources: 1, error_pct: 0, ..GenOpts::default() };
+            let src = crate::gen::gen_source(&mut r, &o, "", &[], false, 0);
+            files.insert("e.txt.txtpp".into(), src.into_bytes());
+        }
+        check_c13(ctx, &files, &format!("case {i}"));
+        if i == 0 {
+            ctx.sample(|| json!({"source": String::from_utf8_lossy(&files["e.txt.txtpp"])}));
+        }
     }
     // CLI -n mapping on a few sources
     let ncli = ctx.tier.pick(4, 60);
